@@ -76,6 +76,9 @@ type Term struct {
 	// strconv.Itoa/FormatUint), decOf is x and decSigned tells its signedness.
 	decOf     *Term
 	decSigned bool
+
+	// hexOf: if this string term is hex(x) (strconv.FormatUint(x, 16)).
+	hexOf *Term
 }
 
 func (t *Term) isLit() bool { return t.op == "" && !t.isVar }
